@@ -97,6 +97,15 @@ BASIC = [
     G('noskipws-reset', [Rule('M', Asg('ps', '+=', Ref('P'))),
                          Rule('P', S(Str('p'), Asg('q', '=', Ref('Q'))), skipws=False),
                          Rule('Q', S(Str('<'), Asg('n', '=', INT), Str('>')), skipws=True)]),
+    # rule modifiers on a rule whose body is not a sequence / choice (repetition, optional, unordered group)
+    G('noskipws-rep-body', [Rule('M', S(Asg('xs', '+=', Ref('X')), Opt(Str(';')))),
+                            Rule('X', Plus(S(Str('a'), Str('b'))), skipws=False)]),
+    G('noskipws-star-body', [Rule('M', S(Str('m'), Asg('x', '=', Ref('X')), Str(';'))),
+                             Rule('X', Star(Str('a')), skipws=False)], tags=['nodeless']),
+    G('ws-rule-ung-body', [Rule('M', S(Str('m'), Asg('u', '=', Ref('U')), Str('e'))),
+                           Rule('U', Ung([Str('a'), Str('b')]), ws=' ')]),
+    G('noskipws-opt-body', [Rule('M', S(Asg('o', '=', Ref('O')), Asg('n', '=', INT))),
+                            Rule('O', Opt(S(Str('<'), Str('>'))), skipws=False)], tags=['nodeless']),
     G('ws-rule', [Rule('M', S(Asg('ps', '+=', Ref('P')), Str('e'))),
                   Rule('P', S(Str('p'), Asg('n', '=', INT), Str(';')), ws=' ')]),
     G('ws-rule-comment', [Rule('M', S(Asg('ps', '+=', Ref('P')), Str('e'))),
@@ -261,6 +270,16 @@ MODES = [
                          Rule('A', S(Str('<'), Asg('w', '=', Ref('W')), Str('>')), ws=' '),
                          Rule('B', S(Str('<'), Asg('w', '=', Ref('W')), Str(']'))),
                          Rule('W', Plus(INT))], tags=['modes']),
+    # the shared rule fixes its own whitespace mode (equal to the global default): it is never evaluated
+    # under two states, memoization must be transparent
+    G('mode-shared-rule-own-mode', [Rule('M', A(Asg('a', '=', Ref('A')), Asg('b', '=', Ref('B')))),
+                                    Rule('A', S(Asg('w', '=', Ref('W')), Str('!')), skipws=False),
+                                    Rule('B', S(Asg('w', '=', Ref('W')), Str('?'))),
+                                    Rule('W', S(Str('x'), Str('y')), skipws=True)], tags=['modes']),
+    G('mode-ws-shared-own-ws', [Rule('M', A(Asg('a', '=', Ref('A')), Asg('b', '=', Ref('B')))),
+                                Rule('A', S(Str('<'), Asg('w', '=', Ref('W')), Str('>')), ws=' '),
+                                Rule('B', S(Str('<'), Asg('w', '=', Ref('W')), Str(']'))),
+                                Rule('W', Plus(S(Str('#'), INT)), ws='\t\n\r ')], tags=['modes']),
     G('mode-eolterm-shared', [Rule('M', A(S(Asg('a', '+=', Ref('W'), eol=True), Str('!')), S(Asg('b', '+=', Ref('W')), Str('?')))),
                               Rule('W', S(Str('w'), INT))], tags=['modes']),
     G('mode-plain', [Rule('M', A(S(Ref('W'), Asg('a', '=', INT)), S(Ref('W'), Asg('b', '=', ID)))),
